@@ -27,12 +27,13 @@ def write_replay(prop, v, tier):
     os.makedirs(rdir, exist_ok=True)
     path = os.path.join(rdir, '%s-%s.json' % (prop, slug(v['fn'] + '-' + v['label'])))
     w = v.get('witness') or {}
-    found = bool(w.get('test'))
+    found = bool(w.get('test')) or bool(w.get('native_test'))
     doc = {
         'property': prop, 'engine': v['engine'], 'unit': v.get('unit'), 'function': v['fn'], 'source': v.get('source'),
         'failed_obligation': v['label'], 'verifier_message': v['message'], 'verifier_output': v.get('rendered', '')[-6000:],
         'kani_harness': v.get('harness') or (v['fn'] if v['engine'] == 'kani' else None),
         'counterexample_values': w.get('values'), 'playback_test': w.get('test'),
+        'native_witness_test': w.get('native_test'), 'native_witness_log': w.get('log'), 'native_witness_cmd': w.get('cmd'),
         'native_replay': v.get('native_replay'),
         'failing_input_found': found,
         'reproduce': 'cd /verif && bin/check %s --replay %s' % (prop, os.path.relpath(path, VERIF)),
@@ -59,6 +60,19 @@ def main(path):
             print('REPLAY: reproduced on the current /repo tree (the recorded input makes the real code fail)')
             return 1
         print('REPLAY: the recorded input no longer fails on the current /repo tree')
+        return 0
+    if doc.get('native_witness_test'):
+        import nx
+        r = nx.run([doc['native_witness_test']]).get(doc['native_witness_test'])
+        if not r or not r[1]:
+            print('REPLAY: could not run native witness test', doc['native_witness_test'])
+            return 2
+        print('native replay command:', r[3], '(injected into a scratch copy of the current /repo)')
+        print(r[2])
+        if r[0]:
+            print('REPLAY: reproduced on the current /repo tree (the witness test fails on the real code)')
+            return 1
+        print('REPLAY: the witness test passes on the current /repo tree')
         return 0
     print('no concrete input recorded (no-failing-input-found); verifier output follows')
     print(doc.get('verifier_output', ''))
